@@ -16,7 +16,7 @@ Definition main_block (l : table) : str :=
   end.
 
 Definition preamble_block (cgo : list str) : str :=
-  concat_str (map (fun c => comment_text c ++ [x0a]) cgo) ++ S "import " ++ [c_dq] ++ S "C" ++ [c_dq] ++ [x0a; x0a].
+  concat_str (map (fun c => comment_text (trim_raw_preamble c) ++ [x0a]) cgo) ++ S "import " ++ [c_dq] ++ S "C" ++ [c_dq] ++ [x0a; x0a].
 
 Lemma render_imports_preamble t cgo : cgo <> [] ->
   render_imports t cgo = main_block (filter (fun e => negb (str_eqb (fst e) s_C)) t) ++ preamble_block cgo.
